@@ -165,6 +165,23 @@ def work(recs):
                             continue
                         bad.append({"shape": [h, w], "key": f"reshape({p},{q})", "expected": "refused (other number of cells)",
                                     "observed": [v.id - base for v in r.data], "sig": {"kind": "reshape-wrong-size"}})
+    # scale-up: more than 256 elements (row-major order does not depend on the size)
+    for (h, w) in ((17, 17), (1, 289), (20, 15)):
+        s = Solver()
+        arr = s.bool_array((h, w))
+        base = arr.data[0].id
+        for (p, q) in ((h, w), (w, h), (1, h * w), (h * w, 1)):
+            for src in (arr, arr.flatten()):
+                n += 1
+                try:
+                    r = src.reshape((p, q))
+                    got = [v.id - base for v in r.data]
+                    ok = list(r.shape) == [p, q] and got == list(range(h * w)) and r[p - 1, q - 1].id - base == h * w - 1
+                except Exception as e:  # noqa
+                    ok, got = False, ["raised " + type(e).__name__]
+                if not ok:
+                    bad.append({"shape": [h, w], "key": f"reshape({p},{q})", "expected": "row-major", "observed": got[:20],
+                                "sig": {"kind": "reshape-large"}})
     return bad, n, nontriv, spec_vs_python
 
 
